@@ -257,12 +257,44 @@ def sibling_named_case(r):
         vals = ['(record (kv #75 %s))' % v for v in vals]
     return json.dumps(W), json.dumps(R), vals, 'reorder-union-branches'
 
+def enum_field_cases():
+    """an enum as the type of a record field, under an optional field-level default and an optional enum-level
+    default, with the written symbol kept, moved or removed in the reader; directly, under a union, in an array.
+    Only the reader ENUM's own default may stand in for an unknown symbol; a field default is for absent fields."""
+    out = []
+    wsyms = ['A', 'B', 'C']
+    for pos in ('direct', 'union', 'array'):
+        for rsyms in (['A', 'B'], ['B', 'A', 'D'], ['C', 'A', 'B']):
+            for edef in (None, rsyms[0]):
+                for fdef in (False, True):
+                    for wi, sym in enumerate(wsyms):
+                        wen = {'type': 'enum', 'name': 'E', 'symbols': wsyms}
+                        ren = {'type': 'enum', 'name': 'E', 'symbols': rsyms}
+                        if edef:
+                            ren['default'] = edef
+                        val = '(enum %d %s)' % (wi, hx(sym))
+                        if pos == 'direct':
+                            wt, rt, v, d = wen, ren, val, rsyms[-1]
+                        elif pos == 'union':
+                            wt, rt, v, d = ['null', wen], ['null', ren], '(union 1 %s)' % val, None
+                        else:
+                            wt, rt, v, d = {'type': 'array', 'items': wen}, {'type': 'array', 'items': ren}, '(array %s)' % val, [rsyms[-1]]
+                        wf = {'name': 'f', 'type': wt}
+                        rf = {'name': 'f', 'type': rt}
+                        if fdef:
+                            rf['default'] = d
+                        W = {'type': 'record', 'name': 'Rec', 'fields': [{'name': 'k', 'type': 'int'}, wf]}
+                        R = {'type': 'record', 'name': 'Rec', 'fields': [rf, {'name': 'k', 'type': 'int'}]}
+                        out.append((json.dumps(W), json.dumps(R), '(record (kv #6b (int 1)) (kv #66 %s))' % v,
+                                    'enum-field:%s:%s' % (pos, 'kept' if sym in rsyms else 'removed'), 'unknown'))
+    return out
+
 def gen_triples(tier, seed):
     rng = Rng(seed)
     n = 260 if tier == 'quick' else 10000
     lines, meta = [], {}
     k = 0
-    for (wt, rt, v, name, sf) in CORPUS:
+    for (wt, rt, v, name, sf) in CORPUS + enum_field_cases():
         cid = 't%d' % k; k += 1
         lines.append('%s (read2 %s %s %s)' % (cid, hx(wt), hx(rt), v))
         meta[cid] = dict(W=wt, R=rt, value=v, steps=name, safety=sf)
